@@ -17,7 +17,6 @@ Oracles (source next to each assertion in the code): the clauses of the property
 screw formulas (Ahmadi et al., Comput. Mater. Sci. 91 (2014) 173 as transcribed in the docstrings; de Wit-Koehler line
 tension; Hirth-Lothe partial separation constants); docstring formulas of constrainedGrowth / computeZenerRadius.
 """
-import itertools
 import math
 
 PROPERTY = 'C18'
@@ -801,10 +800,12 @@ def run_coupled(case):
                 if np.any(wrong & ~row_sub):
                     k = int(np.nonzero(wrong & ~row_sub)[0][0])
                     bad('%s-strength-negative-or-nonfinite' % name, 'history entry %d: %r (rss %r, ls %r)' % (k, float(arr[k]), rss[k].tolist(), ls[k].tolist()))
-                if np.any(wrong & row_sub):
-                    k = int(np.nonzero(wrong & row_sub)[0][0])
-                    bad('%s-strength-negative-or-nonfinite/sub-core' % name, 'history entry %d: %r (rss %r < r_i/2 = %g, ls %r)'
-                        % (k, float(arr[k]), rss[k].tolist(), ri / 2, ls[k].tolist()))
+            wrong = (~np.isfinite(ps) | (ps < 0) | ~np.isfinite(tot) | (tot < 0)) & row_sub
+            if np.any(wrong):
+                k = int(np.nonzero(wrong)[0][0])
+                bad('strength-negative-or-nonfinite/sub-core', 'history entry %d (host t=%.6g s): precipitate strength %r, total strength %r with mean projected radii %r '
+                    '(one below r_i/2 = %g m: negative Orowan term), spacings %r' % (k, float(host.pData.time[rows[k]]) if k < len(rows) else float('nan'),
+                                                                                    float(ps[k]), float(tot[k]), rss[k].tolist(), ri / 2, ls[k].tolist()))
             okr = np.isfinite(ps) & (ps >= 0) & np.isfinite(tot)
             part = np.maximum(np.maximum(30e6, ss), np.where(okr, ps, 0))
             if np.any(okr & (tot < part * (1 - 1e-14))):
@@ -893,6 +894,13 @@ def run(ctx):
                                     ccases.append({'system': system, 'nphases': nph, 'it': it, 'split': split, 'attach': attach,
                                                    'strength': strength, 'dist': dist, 'grid': grid, 'mob': mob, 'git': git,
                                                    'temp': temp, 'tf': 6.0 if quick else 12.0})
+    if quick:
+        # the quick tier adds the dissolution corner of the thorough product (heating ramp, second phase dissolving: the mean
+        # projected radius passes through the sub-core range) for both host iterators and two splits
+        for it in ['euler', 'rk4']:
+            for split in [1, 3]:
+                ccases.append({'system': 'bin', 'nphases': 2, 'it': it, 'split': split, 'attach': 0, 'strength': 'coh+mod', 'dist': 'lognormal',
+                               'grid': 'g150', 'mob': 1e-14, 'git': 'rk4', 'temp': 'heat', 'tf': 12.0})
     res = ctx.product_run('coupled', 'checks.c18:run_coupled', ccases, chunksize=1)
     nlim = sum(1 for r in res if 'step-limit' in str(r.get('outcome')))
     if nlim:
